@@ -25,11 +25,11 @@ inductive Job where
 
 inductive Pc where
   | start                 -- about to Lock(transitionMu)
-  | guard1                -- open: load ForcedClosed          close: IsOpen → load ForceOpen
-  | isOpenFO              -- IsOpen(): load ForceOpen
-  | isOpenFC              -- IsOpen(): load ForcedClosed
-  | isOpenFlag            -- IsOpen(): load isOpen
-  | guard2                -- close: load ForceOpen (the `if ForceOpen { return }` guard)
+  | guard1                -- open: load ForcedClosed
+  | isOpenFO              -- load ForceOpen (open: "already open?"; close: "held open by the operator?")
+  | isOpenFC              -- close: load ForcedClosed
+  | isOpenFlag            -- load isOpen
+  | guard2                -- (unused since the flags are loaded once per decision)
   | decide                -- close: forceClosed || ShouldClose
   | notify                -- deliver Opened / Closed to the collectors
   | store                 -- isOpen.Set(…)
@@ -48,17 +48,17 @@ def step (tid : Nat) (s : Shared) (l : Local) : Option (Shared × Local) :=
   | .start => if s.holder.isNone then some ({ s with holder := some tid }, { l with pc := match l.job with | .open => .guard1 | .close _ _ => .isOpenFO }) else none
   | .guard1 => if s.forcedClosed then goUnlock else some (s, { l with pc := .isOpenFO })        -- open only
   | .isOpenFO =>
-    -- IsOpen() answers true as soon as ForceOpen is set
-    if s.forceOpen then (match l.job with | .open => goUnlock | .close _ _ => some (s, { l with pc := .guard2 }))
-    else some (s, { l with pc := .isOpenFC })
-  | .isOpenFC =>
-    if s.forcedClosed then (match l.job with | .open => some (s, { l with pc := .notify }) | .close _ _ => goUnlock)
-    else some (s, { l with pc := .isOpenFlag })
+    -- each override flag is loaded ONCE per decision.  open: ForcedClosed is known to be off (guard1), so the circuit is
+    -- open iff ForceOpen or the flag;  close: under ForceOpen nothing is closed
+    if s.forceOpen then goUnlock
+    else (match l.job with | .open => some (s, { l with pc := .isOpenFlag }) | .close _ _ => some (s, { l with pc := .isOpenFC }))
+  | .isOpenFC =>                                                                                     -- close only
+    if s.forcedClosed then goUnlock else some (s, { l with pc := .isOpenFlag })
   | .isOpenFlag =>
     (match l.job with
      | .open => if s.isOpen then goUnlock else some (s, { l with pc := .notify })
-     | .close _ _ => if s.isOpen then some (s, { l with pc := .guard2 }) else goUnlock)
-  | .guard2 => if s.forceOpen then goUnlock else some (s, { l with pc := .decide })               -- close only
+     | .close _ _ => if s.isOpen then some (s, { l with pc := .decide }) else goUnlock)
+  | .guard2 => goUnlock                                             -- not reached any more (the second load of ForceOpen is gone)
   | .decide => (match l.job with | .close f a => if f || a then some (s, { l with pc := .notify }) else goUnlock | .open => goUnlock)
   | .notify => some ({ s with log := s.log ++ [match l.job with | .open => true | .close _ _ => false] }, { l with pc := .store })
   | .store => some ({ s with isOpen := match l.job with | .open => true | .close _ _ => false }, { l with pc := .unlock })
